@@ -29,6 +29,8 @@ def gen(rng, n, tier):
         d = sx.rec(h)
         prefilled = rng.random() < 0.4
         size = len(d["freq"])
+        emptied = (not prefilled) and rng.random() < 0.3     # start from filled.copy(include_frequencies=False)
+        pre = [d["freq"], d["err2"]]
         if not prefilled:
             d["freq"] = [0] * size; d["err2"] = [0] * size; d["missed"] = [0] * len(d["missed"])
         keep = "T" if rng.random() < 0.75 else "F"
@@ -38,7 +40,7 @@ def gen(rng, n, tier):
         def val():
             return [("nan" if rng.random() < 0.008 else rng.choice(p)) for p in pools]
         def wt():
-            return Fr(rng.randint(0, 24), 8) if (float_w or rng.random() < 0.25) else rng.randint(0, 4)
+            return Fr(rng.randint(0, 24), 8) if (float_w or rng.random() < 0.25) else rng.choice([0, 1, 2, 3, 4, 16])
         ops = []
         for _ in range(rng.choice([1, 2, 3, 4, 6, 10, 25])):
             r = rng.random()
@@ -57,7 +59,11 @@ def gen(rng, n, tier):
         init = [["axes", axes], ["freq", d["freq"]], ["err2", d["err2"]], ["missed", d["missed"]], ["keep_missed", keep]]
         mops = [(["fill", o[1], o[2]] if o[0] == "lshift" else o) for o in ops]
         yield [["bucket", "%dd/%s/%s" % (nd, "pre" if prefilled else "empty", "keep" if keep == "T" else "nokeep")],
-               ["init", init], ["ops", mops], ["calls", [o[0] for o in ops]], ["hist", [[k, v] for k, v in d.items()]],
+               ["init", init], ["ops", mops], ["hist", [[k, v] for k, v in d.items()]],
+               # impl-side only: how the call is spelled (a numpy integer scalar as the weight of fill), where the histogram comes from
+               ["calls", [(o[0] + ":" + rng.choice(["int8", "int16", "int32"]) if o[0] == "fill" and isinstance(o[2], int) and o[2] != 1 and rng.random() < 0.4
+                           else o[0]) for o in ops]],
+               ["emptied", ["T"] + pre if emptied else ["F"]],
                ["batch", "F" if prefilled else "T"]]
 
 def _state(h):
@@ -75,11 +81,20 @@ def impl(case):
     import numpy as np, physt
     d = sx.rec(case); hd = sx.rec(d["hist"]); init = sx.rec(d["init"])
     hd["keep_missed"] = init["keep_missed"]
-    h = C.mk_hist(hd)
+    em = d.get("emptied", ["F"])
+    if em[0] == "T":
+        hd2 = dict(hd); hd2["freq"] = em[1]; hd2["err2"] = em[2]
+        h = C.mk_hist(hd2).copy(include_frequencies=False)
+        h.keep_missed = init["keep_missed"] == "T"
+    else:
+        h = C.mk_hist(hd)
     nd = h.ndim
+    raw = lambda: repr(h.to_dict()["missed"])
     steps = []
     allv, allw, valid = [], [], True
     for op, call in zip(d["ops"], d["calls"]):
+        raw0 = raw()
+        call, _, npk = call.partition(":")
         if op[0] == "fill":
             v = [sx.fl(x) for x in op[1]]; w = op[2]
             w = float(w) if isinstance(w, Fr) and w.denominator != 1 else int(w)
@@ -92,7 +107,7 @@ def impl(case):
                 if call == "lshift":
                     r = h << arg; r = fb      # the alias returns nothing; the index is taken from find_bin
                 else:
-                    r = h.fill(arg, w) if w != 1 else h.fill(arg)
+                    r = h.fill(arg, getattr(np, npk)(w) if npk else w) if w != 1 else h.fill(arg)
                 ret = _ret(r)
                 if _ret(fb) != ret: ret = "find_bin-disagrees"
             except Exception as e:
@@ -110,6 +125,7 @@ def impl(case):
                     allv.append(row); allw.append(1 if ws is None else ws[k].item())
             except Exception as e:
                 ret = "refused"
+        if not h.keep_missed and raw() != raw0: steps.append(["untracked-missed-counters-changed", raw0, raw()]); continue
         steps.append([ret] + _state(h))
     batch = "skip"
     if d["batch"] == "T" and allv:
@@ -129,7 +145,7 @@ def corr_view(case, obs):
 
 def nontrivial(case, obs):
     d = sx.rec(case)
-    calls = d["calls"]
+    calls = [c.partition(":")[0] for c in d["calls"]]
     return len(calls) >= 2 and "fill_n" in calls and ("fill" in calls or "lshift" in calls) and any(
         isinstance(s, list) and len(s) == 4 and sum(s[1]) > 0 for s in obs[0])
 
